@@ -16,6 +16,8 @@ struct wrap_state {
   size_t shrink_n;
   long grow_at;     /* oracle grow k n: just before call k (a sendfile) n bytes are appended to the source file */
   size_t grow_n;
+  long relink_at;   /* oracle relink k n: just before call k (a readlinkat) the link is replaced by one whose target is n + 1 bytes longer */
+  size_t relink_n;
   size_t short_all; /* oracle shortall n: every write / sendfile of the operation moves at most n bytes */
   size_t chunk;       /* if non-zero: every sendfile moves at most chunk bytes */
   long alloc_fail_at; /* fail allocation with this index */
